@@ -16,6 +16,10 @@ func runExtra(cmd string, args []string) error {
 		return cmdRandom(args)
 	case "runplans":
 		return cmdRunPlans(args)
+	case "idmreplay":
+		return cmdIdmReplay(args)
+	case "idmconc":
+		return cmdIdmConc(args)
 	}
 
 	return fmt.Errorf("unknown command %q", cmd)
@@ -97,6 +101,75 @@ func cmdRunPlans(args []string) error {
 	}
 
 	b, _ := json.Marshal(map[string]any{"target": *target, "events": n})
+	fmt.Println(string(b))
+
+	return nil
+}
+
+func cmdIdmReplay(args []string) error {
+	fl := flag.NewFlagSet("idmreplay", flag.ExitOnError)
+	edges := fl.String("edges", "", "edge file")
+	out := fl.String("out", "", "trace file of unexplained edges")
+	shard := fl.Int("shard", 0, "shard")
+	nshard := fl.Int("nshard", 1, "shards")
+	gn := fl.String("gnames", "root,g1,g2", "group names")
+	un := fl.String("unames", "root,u1,u2", "user names")
+	maxID := fl.Int("maxid", 1010, "highest id probed")
+	openkf := fl.String("openkf", "", "comma separated ids of open findings")
+	_ = fl.Parse(args)
+
+	in, err := os.Open(*edges)
+	if err != nil {
+		return err
+	}
+	defer in.Close()
+
+	of, err := os.Create(*out)
+	if err != nil {
+		return err
+	}
+	defer of.Close()
+
+	open := map[string]bool{}
+	for _, k := range strings.Split(*openkf, ",") {
+		open[k] = true
+	}
+
+	n, bad, used, err := drv.IdmReplay(in, of, *shard, *nshard, strings.Split(*gn, ","), strings.Split(*un, ","), *maxID, open)
+	if err != nil {
+		return err
+	}
+
+	b, _ := json.Marshal(map[string]any{"edges": n, "bad": bad, "used": used})
+	fmt.Println(string(b))
+
+	return nil
+}
+
+func cmdIdmConc(args []string) error {
+	fl := flag.NewFlagSet("idmconc", flag.ExitOnError)
+	out := fl.String("out", "", "history file")
+	seed := fl.Int64("seed", 1, "seed")
+	iters := fl.Int("iters", 20000, "executions")
+	nproc := fl.Int("nproc", 2, "goroutines")
+	gn := fl.String("gnames", "g1,g2", "group names")
+	un := fl.String("unames", "u1,u2", "user names")
+	_ = fl.Parse(args)
+
+	of, err := os.Create(*out)
+	if err != nil {
+		return err
+	}
+	defer of.Close()
+
+	gnames, unames := strings.Split(*gn, ","), strings.Split(*un, ",")
+
+	n, err := drv.IdmConcurrent(*seed, *iters, *nproc, gnames, unames, 1010, of)
+	if err != nil {
+		return err
+	}
+
+	b, _ := json.Marshal(map[string]any{"executions": *iters, "distinct": n})
 	fmt.Println(string(b))
 
 	return nil
